@@ -8,6 +8,7 @@ mod fam_clicodec;
 mod fam_clihostile;
 mod fam_clitrunc;
 mod fam_chunklist;
+mod fam_concat;
 mod fam_codec;
 mod fam_edit;
 mod fam_extract;
@@ -78,6 +79,7 @@ fn main() {
         "foreign" => fam_foreign::foreign(&mut ctx),
         "cli-truncate" => fam_clitrunc::cli_truncate(&mut ctx),
         "chunk-list" => fam_chunklist::chunk_list(&mut ctx),
+        "concat" => fam_concat::concat(&mut ctx),
         "cli-hostile" => fam_clihostile::cli_hostile(&mut ctx),
         "sched" => fam_sched::sched(&mut ctx),
         "fault" => fam_fault::fault(&mut ctx),
